@@ -334,8 +334,13 @@ def report(pid, mod, a, seed, cells, results, wall):
             "pristine interpreter and compared)", "z3 answers are trusted"],
         "wall_s": round(wall, 2), "violations": len(done),
     }
-    os.makedirs(os.path.join(VERIF, "evidence"), exist_ok=True)
-    json.dump(ev, open(os.path.join(VERIF, "evidence", pid + ".json"), "w"), indent=1)
+    # evidence under /verif/evidence describes /repo only: a development run pointed at a scratch worktree
+    # (VERIF_REPO) writes its evidence to a scratch directory instead
+    evdir = os.path.join(VERIF, "evidence")
+    if os.path.realpath(os.environ.get("VERIF_REPO", "/repo")) != os.path.realpath("/repo"):
+        evdir = os.path.join("/tmp", "verif_scratch_evidence")
+    os.makedirs(evdir, exist_ok=True)
+    json.dump(ev, open(os.path.join(evdir, pid + ".json"), "w"), indent=1)
     print("%s tier=%s cells=%d paths=%d decisions=%d queries=%d obligations=%d/%d validated=%d "
           "solver=%.1fs wall=%.1fs rc=%d" % (pid, a.tier, len(cells), stats.paths, stats.decisions,
                                              stats.queries, stats.discharged, stats.obligations,
